@@ -312,3 +312,21 @@ Print Assumptions solution_transport.
 Print Assumptions transported_solution_unique.
 Print Assumptions superposition_sum.
 Print Assumptions sol_unique.
+
+(* ---- tactics: push a homomorphism through a field expression --------------- *)
+Ltac hom_D h :=
+  repeat first
+    [ assumption
+    | apply (pD0 h) | apply (pD1 h)
+    | match goal with H : Dctx h _ |- pD h (par _ _) => apply H end
+    | match goal with H : forall n, pD h (_ n) |- pD h _ => apply H end
+    | apply (pDadd h) | apply (pDmul h) | apply (pDopp h) | apply (pDsub _ _ h)
+    | (apply (pDdiv h); [ | | first [assumption | apply ph2_nz] ]) ].
+Ltac hom_push h :=
+  repeat first
+    [ rewrite (ph0 _ _ h) | rewrite (ph1 h)
+    | rewrite (phopp _ _ h) by hom_D h
+    | rewrite (phadd h) by hom_D h
+    | rewrite (phsub _ _ h) by hom_D h
+    | rewrite (phmul h) by hom_D h
+    | rewrite (phdiv _ _ h) by (first [assumption | apply ph2_nz | hom_D h]) ].
